@@ -28,9 +28,18 @@ type tailCase struct {
 	Final  string   `json:"final"`  // how the result is observed: "id" | "callall" | "len"
 	Labels []string `json:"labels"` // context kinds used
 	Tail   bool     `json:"tail"`   // false for non-tail look-alikes (only transparency is checked)
+	Zero   bool     `json:"zero"`   // the function takes no parameters: n, acc and the closure list clos are globals
 }
 
 func (c tailCase) callAt(depth int64) []*Node {
+	if c.Zero {
+		// (def n depth) (def acc 0) (def clos nil) <defn> (tf) then the closures collected on the way
+		forms := []*Node{NDef("n", NInt(depth)), NDef("acc", NInt(0)), NDef("clos", NNil())}
+		forms = append(forms, cloneForms(c.Forms)...)
+		forms = append(forms, NTrace(NCall(NVar(c.Fn))))
+		forms = append(forms, NPrim("map", &Node{K: "fn", Names: []string{"cl"}, Kids: []*Node{NCall(NVar("cl"))}}, NVar("clos")))
+		return forms
+	}
 	call := NCall(NVar(c.Fn), NInt(depth), cloneNode(c.Acc0))
 	for _, e := range c.Extra {
 		call.Kids = append(call.Kids, cloneNode(e))
@@ -93,6 +102,43 @@ func (g *tailGen) wrapTail(e *Node, k int, other func() *Node) *Node {
 		}
 	}
 	return e
+}
+
+// genZeroParamCase: a self tail-recursive function WITHOUT parameters, driven by globals; every
+// activation defines a function-level local and collects a closure over it (each activation must
+// get its own scope although there is no parameter to rebind)
+func genZeroParamCase(t *rapid.T, traced bool) tailCase {
+	g := &tailGen{t: t, labels: map[string]bool{}, traced: traced}
+	c := tailCase{Fn: "tf", Tail: true, Final: "id", Zero: true, Acc0: NInt(0)}
+	g.lab("no-parameters")
+	rec := N("begin", NSet("acc", NPrim("+", NVar("acc"), NVar("n"))), NSet("n", NPrim("-", NVar("n"), NInt(1))), NCall(NVar("tf")))
+	base := func() *Node { return NVar("acc") }
+	core := N("cond", NPrim("<=", NVar("n"), NInt(0)), base(), rec)
+	k := rapid.IntRange(0, 3).Draw(t, "depth")
+	other := func() *Node { return N("cond", NPrim("<=", NVar("n"), NInt(0)), base(), cloneNode(rec)) }
+	body := g.wrapTail(core, k, other)
+	fn := &Node{K: "defn", S: "tf"}
+	switch rapid.IntRange(0, 2).Draw(t, "zlocal") {
+	case 0:
+		g.lab("closure-captures-local")
+		fn.Kids = append(fn.Kids, NDef("loc", NPrim("*", NVar("n"), NInt(10))),
+			NSet("clos", NPrim("cons", &Node{K: "fn", Kids: []*Node{NVar("loc")}}, NVar("clos"))))
+	case 1:
+		// a local defined only in the first activation must not be visible in later ones
+		g.lab("local-defined-in-one-activation-only")
+		fn.Kids = append(fn.Kids, N("cond", NPrim("==", NPrim("mod", NVar("n"), NInt(3)), NInt(0)), NDef("acc", NInt(1000)), NNil()))
+	default:
+		g.lab("closure-captures-let-local")
+		fn.Kids = append(fn.Kids, &Node{K: "let", Names: []string{"lv"}, Kids: []*Node{NPrim("+", NVar("n"), NInt(100)),
+			NSet("clos", NPrim("cons", &Node{K: "fn", Kids: []*Node{NVar("lv")}}, NVar("clos")))}})
+	}
+	fn.Kids = append(fn.Kids, body)
+	c.Forms = []*Node{fn}
+	for l := range g.labels {
+		c.Labels = append(c.Labels, l)
+	}
+	sortStrings(c.Labels)
+	return c
 }
 
 func genTailCase(t *rapid.T, traced bool) tailCase {
@@ -322,15 +368,18 @@ var checkTailSpaceR = reg("C09", "space", checkTailSpace)
 func TestC09(t *testing.T) {
 	p := begin(t, "C09")
 	r := p.r
-	r.SetRule("case = self-recursive function shape: the self call in tail position under 0-4 nested contexts drawn from {cond arm, begin last, let / letseq / newScope body last, last arm of and / or}, with accumulators that stay int, change type (int->float, nil->list, []->array), or collect closures capturing the parameter or a local defined before the call; optional extra and variadic parameters, inner defn; plus non-tail look-alikes (self call in a let binding, argument, array literal, assert, cond predicate, first and-arm, def value, for body). transparent: value, trace and the results of calling the collected closures equal the reference evaluator (ordinary calls) at depths 0..50. space: data/scope/address/loop stack high-water marks sampled by a pre-call hook are IDENTICAL at depths 10, 100, 1000, 10000 (thorough: 100000) and the run completes within 200 VM steps per level. Non-trivial: tail call under >=2 contexts or crossing a scope-creating context, and depth >=100 run. Distinct by source text.")
+	r.SetRule("case = self-recursive function shape: the self call in tail position under 0-4 nested contexts drawn from {cond arm, begin last, let / letseq / newScope body last, last arm of and / or}, with accumulators that stay int, change type (int->float, nil->list, []->array), or collect closures capturing the parameter or a local defined before the call; optional extra and variadic parameters, inner defn; functions WITHOUT parameters driven by globals that define a function-level or let local per activation and collect closures over it; plus non-tail look-alikes (self call in a let binding, argument, array literal, assert, cond predicate, first and-arm, def value, for body). transparent: value, trace and the results of calling the collected closures equal the reference evaluator (ordinary calls) at depths 0..50. space: data/scope/address/loop stack high-water marks sampled by a pre-call hook are IDENTICAL at depths 10, 100, 1000, 10000 (thorough: 100000) and the run completes within 200 VM steps per level. Non-trivial: tail call under >=2 contexts or crossing a scope-creating context, and depth >=100 run. Distinct by source text.")
 	depthsQuick := []int64{10, 100, 1000, 10000}
 	depthsThorough := []int64{10, 100, 1000, 10000, 100000}
 
 	p.rapidSub("transparent", ev.Scale(1500, 300000), func(t *rapid.T) {
 		var c tailCase
-		if rapid.IntRange(0, 3).Draw(t, "lookalike") == 0 {
+		switch rapid.IntRange(0, 7).Draw(t, "lookalike") {
+		case 0, 1:
 			c = genLookAlike(t)
-		} else {
+		case 2:
+			c = genZeroParamCase(t, true)
+		default:
 			c = genTailCase(t, true)
 		}
 		depth := int64(rapid.IntRange(0, 50).Draw(t, "depth"))
@@ -345,6 +394,9 @@ func TestC09(t *testing.T) {
 	})
 	p.rapidSub("space", ev.Scale(300, 30000), func(t *rapid.T) {
 		c := genTailCase(t, false)
+		if rapid.IntRange(0, 7).Draw(t, "zero") == 0 {
+			c = genZeroParamCase(t, false)
+		}
 		ds := depthsQuick
 		if ev.Thorough() && rapid.IntRange(0, 9).Draw(t, "deep") == 0 {
 			ds = depthsThorough
